@@ -333,12 +333,30 @@ func runInBubble(spec *RunSpec, res *RunResult) {
 					}
 				}
 			}
+			var primary sync.WaitGroup
 			for ci, ops := range scripts {
 				wg.Add(1)
+				isPrimary := len(ops) == 0 || ops[0].Op != "await-final"
+				if isPrimary {
+					primary.Add(1)
+				}
 				go func(ci int, ops []ClientOp) {
 					defer wg.Done()
+					if isPrimary {
+						defer primary.Done()
+					}
 					c.runClient(ws, gen, ci, ops)
 				}(ci, ops)
+			}
+			if inc == 0 {
+				go func() {
+					primary.Wait()
+					select {
+					case <-w.primaryDone:
+					default:
+						close(w.primaryDone)
+					}
+				}()
 			}
 			go func() { wg.Wait(); close(clientsDone) }()
 			select {
@@ -465,6 +483,14 @@ func (c *controller) clientOp(ctx context.Context, ws *coercion.Workstream, gen,
 	switch op.Op {
 	case "sleep":
 		time.Sleep(ms(op.Ms))
+		return !w.Dead(gen)
+	case "await-final":
+		// proceed the moment the engine is about to store the plan's terminal state (or
+		// when all ordinary clients are done: the plan may never get that far)
+		select {
+		case <-w.FinalCh(op.Plan):
+		case <-w.primaryDone:
+		}
 		return !w.Dead(gen)
 	case "submit":
 	case "startUnknown", "waitUnknown", "planUnknown":
